@@ -87,6 +87,21 @@ fn step2(w: &mut World, op: &R1Op, mut a: Args, before: Cost, dup: bool) -> Reso
             if was == Memo::Enc {
                 w.probe("value_was_first_forcing_operation");
             }
+            // a constant that is not a valid encoding has no element: reading one out of it is wrong however
+            // often it is tried (native decoding fails, and there is nothing to constrain)
+            if w.judge == Judge::C13 && const_invalid(&w.es[&id]) {
+                if let Some(Ok(v)) = &r {
+                    w.viol(
+                        "C13",
+                        "constant_invalid_encoding_decoded",
+                        format!("op={} state={}", name, memo_name(was)),
+                        format!(
+                            "value() of a constant invalid encoding returned the element {}",
+                            hex(&v.vartime_compress().0)
+                        ),
+                    );
+                }
+            }
             match r {
                 Some(Ok(v)) => {
                     if checkable && w.judge == Judge::C13 {
@@ -626,11 +641,19 @@ fn step_eq(w: &mut World, op: &R1Op, ia: usize, ib: usize, cond: Option<usize>, 
     match r {
         Some(R::B(Ok(b))) => {
             check_bool(w, name, &b, native_eq);
-            outs.push(w.push_b(BV {
+            let out = w.push_b(BV {
                 var: b,
                 val: native_eq,
                 cst: all_cst,
-            }));
+            });
+            if !all_cst {
+                w.rels.push(Rel::IsEq {
+                    a: Id::E(ia),
+                    b: Id::E(ib),
+                    out,
+                });
+            }
+            outs.push(out);
         }
         Some(R::B(Err(e))) => {
             *failed = true;
